@@ -248,13 +248,36 @@ fn structural_cases(text: &str, out: &mut Vec<Case>) {
                             let s1 = splice(text, last.1 .1 + 1, 0, &format!(" zi:{}=\"dup\"", l));
                             let s2 = splice(&s1, root.name.1, 0, &format!(" xmlns:zi=\"{}\"", esc));
                             push("duplicate-attribute-by-expanded-name-inherited-prefix", s2, Expect::Reject);
-                            // both prefixes inherited: nothing is declared on the element itself
+                            // both prefixes inherited
                             let s1 = splice(text, t.name.1, 0, " zi:dup2=\"1\" zj:dup2=\"2\"");
                             let s2 = splice(&s1, root.name.1, 0, &format!(" xmlns:zi=\"{}\" xmlns:zj=\"{}\"", esc, esc));
                             push("duplicate-attribute-by-expanded-name-both-prefixes-inherited", s2, Expect::Reject);
                         }
                     }
+                    // both prefixes inherited on every kind of element — with and without declarations or
+                    // attributes of its own (a duplicate check that only runs for elements that declare
+                    // something misses the element that declares nothing)
+                    let s1 = splice(text, t.name.1, 0, " zk:dup3=\"1\" zl:dup3=\"2\"");
+                    let s2 = splice(&s1, root.name.1, 0, " xmlns:zk=\"urn:zdup\" xmlns:zl=\"urn:zdup\"");
+                    push("duplicate-attribute-both-prefixes-inherited-any-element", s2, Expect::Reject);
                 }
+            }
+        }
+    }
+    // a declaration whose scope ended must stay ended however many elements were open below it: a
+    // prefix declared on an element with a chain of 63 .. 130 nested descendants, used by a later sibling
+    if let Some(root) = sp.stags.first() {
+        if !root.empty && root.start == sp.root_start {
+            for depth in [63usize, 64, 65, 66, 130] {
+                let mut ins = String::from("<zd xmlns:zp=\"urn:zdeep\">");
+                for _ in 0..depth {
+                    ins.push_str("<zn>");
+                }
+                for _ in 0..depth {
+                    ins.push_str("</zn>");
+                }
+                ins.push_str("</zd><zp:leak/>");
+                push("prefix-used-after-deep-scope-ended", splice(text, root.end, 0, &ins), Expect::Reject);
             }
         }
     }
